@@ -59,7 +59,7 @@ theorem step_dlvSync {s s' : Sys} {b : Bool} (hG : GInv s) (hO : OInv s)
         exact ⟨⟨hside _ rfl rfl (by simp [CritPc.srcGone]) (by simp [CritPc.isFast]) (by simp [CritPc.isSyncGot]) (by simp) rfl, hO' _ rfl⟩, rfl⟩
 
 theorem step_handshake {s s' : Sys} {l : Label} (hG : GInv s) (hO : OInv s)
-    (hl : l = .dlvPreCheck ∨ l = .dlvPreSwitch ∨ l = .dlvFinalSwitch ∨ l = .commit .S ∨ (l = .commit .D ∧ s.crit = none))
+    (hl : l = .dlvPreCheck ∨ l = .dlvPreSwitch ∨ l = .dlvFinalSwitch ∨ l = .commit .S ∨ (l = .commit .D ∧ critDump s = none))
     (hs : step? s l = some s') :
     (GInv s' ∧ OInv s') ∧ logical s' = logical s := by
   rcases hl with rfl | rfl | rfl | rfl | ⟨rfl, hc⟩
